@@ -34,6 +34,19 @@ def _events(args):
             return l
         return l.lift_over_to_first_ancestor_of_type(SequenceType.CHROMOSOME)
 
+    def pid_of(l):
+        return l.parent.id if l.parent is not None else None
+
+    def chrom_loc(A, B):
+        # the chromosome-level location (also of the CDS) names the chromosome, as the whole-chromosome twin's does --
+        # also when the object has no base on its chunk
+        if pid_of(B.chromosome_location) != pid_of(A.chromosome_location):
+            raise AttributeError("chromosome_location of the chunk-built object is not on the twin's chromosome")
+        if getattr(A, "cds", None) is not None and getattr(B, "cds", None) is not None and \
+                pid_of(B.cds.chromosome_location) != pid_of(A.cds.chromosome_location):
+            raise AttributeError("cds.chromosome_location of the chunk-built object is not on the twin's chromosome")
+        return E.loc(B.chromosome_location)
+
     def twin_row(A, B, blocks, st, cds, frames, R, ws, we, route, ctor, mk_fresh=None):
         """the observations of one interval B built on the chunk against its whole-chromosome twin A"""
         row = ["twin", [blocks, st], [cds, st] if cds else [[], "e"], frames, list(R), ws, we, route, ctor]
@@ -42,7 +55,7 @@ def _events(args):
         has_cds = bool(cds)
         row += [B.to_dict() == A.to_dict(),
                 B.guid == A.guid and (not has_cds or (B.cds is not None and B.cds.guid == A.cds.guid)),
-                E.outcome(lambda: E.loc(B.chromosome_location)),
+                E.outcome(lambda: chrom_loc(A, B)),
                 E.outcome(lambda: E.loc(back(B.chunk_relative_location))),
                 E.outcome(lambda: list(str(B.get_spliced_sequence())))]
         if has_cds and B.cds is not None:
